@@ -235,6 +235,26 @@ theorem keyLookup_strip (sp : StripFn) (k : KeyDecl) (root : Loc) (s : String) (
       simp only [List.map_cons, List.filter_cons, stripEntry]
       cases e.1 == s <;> simp [ih, XNode.strip]
 
+theorem keyLookupArg_strip (sp : StripFn) (k : KeyDecl) (root : Loc) (v : Option Value)
+    (h : root.stripped sp = false) :
+    (keyLookupArg sp k root v).map (List.map (XNode.strip sp))
+      = keyLookupArg noStrip k (root.strip sp) (v.map (Value.strip sp)) := by
+  cases v with
+  | none => rfl
+  | some v =>
+    cases v with
+    | ns l =>
+      simp only [keyLookupArg, Option.map_some, Value.strip_ns, Option.map_map]
+      rw [← mergeStep_map sp (fun x => keyLookup sp k root (x.strVal sp))
+        (fun x => keyLookup noStrip k (root.strip sp) (x.strVal noStrip)) l
+        (fun x _ => by rw [XNode.strVal_strip]; exact keyLookup_strip sp k root _ h)]
+      cases mergeStep (fun x => keyLookup sp k root (x.strVal sp)) l with
+      | none => rfl
+      | some r => simp [docOrder_map]
+    | num n => exact keyLookup_strip sp k root _ h
+    | str s => exact keyLookup_strip sp k root _ h
+    | bool b => exact keyLookup_strip sp k root _ h
+
 /-! ### xsl:number level any, the specification -/
 
 theorem fromMatches_strip (sp : StripFn) (f : Option Pat) (l : Loc) (h : keep sp l = true) :
